@@ -1,5 +1,6 @@
 import Cactus.Lemmas.Basic
 import Cactus.Lemmas.NoRevive
+import Cactus.Lemmas.Shared.OneStep   -- `Shared.rcDrop_dead_noop` (also used by `Props/C02.lean`, `Props/C15.lean`)
 /-!
 # C16 — cloning a handle to a destroyed object aborts; dropping it has no effect; the object's
 count is never revived
@@ -59,15 +60,8 @@ theorem C16_abort_is_final (s : State) (e : Err) (h : s.err = some e) : step s =
 
 /-- dropping a handle to a dead object returns before touching anything (drop.rs:121-123) -/
 theorem C16_drop_dead_noop (s : State) (o : Nat) (ob : Obj)
-    (hc : s.cell o = some ob) (hd : ob.strong.isDead = true) : s.rcDrop o = s := by
-  unfold State.rcDrop
-  simp only [hc]
-  cases hs : ob.strong with
-  | uninit => rfl
-  | cnt n =>
-    cases n with
-    | zero => rfl
-    | succ n => simp [hs, Strong.isDead] at hd
+    (hc : s.cell o = some ob) (hd : ob.strong.isDead = true) : s.rcDrop o = s :=
+  Shared.rcDrop_dead_noop s o ob hc hd
 
 /-- non-vacuity: a dead, not yet released object -/
 example : ({ heap := [{ strong := .uninit, weak := 1, links := none, value := none, freed := false }] } : State).cell 0
